@@ -16,7 +16,7 @@ LEVEL_TEXT = ('all distinct on-disk crash states of each scenario are produced b
               '(SIGKILL semantics: no handlers, no buffered flush); in each one every argument must be complete at its origin or complete under files/ with its '
               '.trashinfo, and every payload under any files/ must have a present, complete, parseable .trashinfo naming the right location')
 LEVEL_NOTE = 'crash = process kill between two system calls; power loss / page-cache reordering is out of scope; trusted: shim trace completeness for mutating calls (T1 transparency test)'
-RULE = ('scenarios: kind (6) x trash state (first use, existing, name collision) x route (home, .Trash/uid, .Trash-uid, home-fallback cross-volume) + two-argument and -v/-i variants '
+RULE = ('scenarios: kind (6) x trash state (first use, existing, name collision) x route (home, .Trash/uid, .Trash-uid, home-fallback cross-volume) + two-argument, 250-byte name, -f / plain with every candidate blocked (quick) and -v/-i variants '
         '(thorough); crash before each mutating syscall + after the last; non-trivial = the crash state differs from both the initial and the final state; distinct = (route, '
         'kind, state, operation at which the process died)')
 ROUTES = ['home', 'top', 'alt', 'fallback']
@@ -36,6 +36,11 @@ def scenarios(tier):
     for route in ROUTES:
         out.append({'kind': 'tree', 'route': route, 'state': 'cold', 'var': 'two'})
         out.append({'kind': 'file', 'route': route, 'state': 'warm', 'var': 'suffix-name'})
+        for k in ('file', 'tree'):
+            out.append({'kind': k, 'route': route, 'state': 'collision', 'var': 'long-name'})      # NAME.trashinfo exceeds NAME_MAX: both names are shortened
+    for k in ('file', 'tree', 'ldir'):
+        for var in ('-f', 'one'):
+            out.append({'kind': k, 'route': 'blocked', 'state': 'cold', 'var': var})                # no candidate accepts the entry: it stays, with or without -f
     if tier == 'thorough':
         for route in ROUTES:
             for k in ('file', 'tree', 'ldir'):
@@ -46,6 +51,8 @@ def scenarios(tier):
 
 
 def _name(s):
+    if s['var'] == 'long-name':
+        return 'N' * 250
     return 'x.trashinfo' if s['var'] == 'suffix-name' else 'x'
 
 
@@ -59,9 +66,9 @@ def world_(s):
         scen.add_entry(W, B + '/y', 'file')
     if route == 'top':
         W.dir('/mnt/v1/.Trash', mode=0o1777)
-    if route == 'fallback':
+    if route in ('fallback', 'blocked'):
         W.file('/mnt/v1/.Trash', 'blocked').file('/mnt/v1/.Trash-0', 'blocked')
-    td = {'home': scen.HOME_TRASH, 'top': '/mnt/v1/.Trash/0', 'alt': '/mnt/v1/.Trash-0', 'fallback': scen.HOME_TRASH}[route]
+    td = {'home': scen.HOME_TRASH, 'top': '/mnt/v1/.Trash/0', 'alt': '/mnt/v1/.Trash-0', 'fallback': scen.HOME_TRASH, 'blocked': '/mnt/v1/.Trash-0'}[route]
     if s['state'] == 'collision-dangling':
         scen.add_trash_dir(W, td)
         loc = (B + '/x') if td == scen.HOME_TRASH else 'w/x'
@@ -69,11 +76,13 @@ def world_(s):
         W.link(td + '/files/x', 'target-that-went-away')
     if s['state'] in ('warm', 'collision'):
         scen.add_trash_dir(W, td)
-        nm = 'x' if s['state'] == 'collision' else 'zzz'
+        nm = _name(s) if s['state'] == 'collision' else 'zzz'
+        if len(nm) > 200:
+            nm = nm[:len(nm) - len('.trashinfo')]          # what a 250-byte name is shortened to: the first put of that name sits there
         loc = (B + '/' + nm) if td == scen.HOME_TRASH else ('w/' + nm)
         scen.add_trashed(W, td, nm, loc, '2019-01-01T00:00:00', payload='tree' if s['kind'] != 'tree' else 'file', tag='older')
         if s['state'] == 'collision':
-            W.file(td + '/files/x_1', 'orphan payload at the next suffix\n')      # forces a second retry
+            W.file(td + '/files/%s_1' % nm[:200], 'orphan payload at the next suffix\n')      # forces a second retry
     return W, B, td
 
 
@@ -93,8 +102,8 @@ def command(s, ctx):
     if s['route'] == 'fallback':
         argv.append('--home-fallback')
         env['TRASH_ENABLE_HOME_FALLBACK'] = '1'
-    if s['var'] == '-vv':
-        argv.append('-vv')
+    if s['var'] in ('-vv', '-f'):
+        argv.append(s['var'])
     if s['var'] == '-i':
         argv.append('-i')
         stdin = 'y\ny\n'
@@ -144,8 +153,8 @@ def oracle(s, ctx, start, sb, r, at):
     for p_ in start:
         if (p_.startswith(td + '/files/') or p_.startswith(td + '/info/')) and start[p_] != snap.get(p_) and start[p_][0] != 'd':
             problems.append('pre-existing-trash-content-changed:%s' % p_)
-    if at is None and r.exit != 0:
-        problems.append('uncrashed-run-failed')
+    if at is None and r.exit != 0 and s['route'] != 'blocked':
+        problems.append('uncrashed-run-failed')          # (with every candidate blocked the run has to fail - and the entry to stay)
     if problems:
         what = problems[0].split(':')[0]
         return {'verdict': 'viol', 'sig': 'C05|%s|route=%s|kind=%s|died-before=%s' % (what, s['route'], 'dir' if s['kind'] == 'tree' else ('link' if s['kind'].startswith('l') else 'file'),
